@@ -106,7 +106,7 @@ GroupStep(r, n, rl) ==
                       /\ Delta(rl, grp.rl) # Delta(r.row_lines, grp.tl) THEN Flag(r, "layout.lines")
               ELSE TRUE
 
-Check(r) ==
+Check0(r) ==
   \E lx \in {LexTest(r.cs)} :        \* bound through a singleton set: evaluated exactly once
   IF r.res = "panic" THEN Flag(r, "panic") /\ GroupStep(r, NoToks, <<>>)
   ELSE IF ~r.reparse_ok THEN Flag(r, "reparse") /\ GroupStep(r, NoToks, <<>>)
@@ -141,6 +141,12 @@ Check(r) ==
          ELSE IF r.has_ref /\ NoLines(b.stmts) # NoLines(r.ref_stmts) THEN Flag(r, "display.fixpoint")
          ELSE TRUE
       /\ GroupStep(r, Normal(all), IF r.res = "ok" THEN RowLines(r.dump.stmts) ELSE <<>>)
+
+\* C10, on the log alone: whatever text the parser accepted (rightly or not), bound to a signal list made to fit it and
+\* iterated against a driver that answers small numbers, must not have panicked (r.run_panic is the message, "" if none)
+Check(r) ==
+  /\ IF r.run_panic # "" THEN Flag(r, "run.panic") ELSE TRUE
+  /\ Check0(r)
 
 Step ==
   /\ l <= Len(Rec)
